@@ -158,10 +158,17 @@ def decide(mod, prop, tier, seed, m, wall, zfile, shash, nfiles, nshards):
 
     replay_dir = os.path.join(tree.VERIF_ROOT, "replays", prop)
     written = set()
+    minimised = 0
     for v in fresh:
         if v["vsig"] in written or len(written) >= 20:
             continue
         written.add(v["vsig"])
+        if minimised < 4:
+            minimised += 1
+            try:
+                minimise(mod, prop, v)
+            except Exception as e:  # noqa  (never let triage help hurt)
+                v["minimise_error"] = "%s: %s" % (type(e).__name__, e)
         os.makedirs(replay_dir, exist_ok=True)
         blob = json.dumps(v, sort_keys=True, indent=1)
         name = hashlib.sha1(blob.encode()).hexdigest()[:16] + ".json"
@@ -171,6 +178,8 @@ def decide(mod, prop, tier, seed, m, wall, zfile, shash, nfiles, nshards):
         lines.append("VIOLATION property=%s replay=%s" % (prop, path))
         lines.append("  kind=%s detail=%s" % (v["kind"],
                                               str(v.get("detail"))[:300]))
+        if v.get("minimised_text") is not None:
+            lines.append("  minimised text=%r" % v["minimised_text"][:300])
     for mech, n in sorted(known_seen.items()):
         lines.append("KNOWN-FINDING: property=%s %s [mechanism=%s, "
                      "%d witness(es) this run]"
@@ -227,6 +236,45 @@ def decide(mod, prop, tier, seed, m, wall, zfile, shash, nfiles, nshards):
             print("INCONCLUSIVE property=%s reason=%s" % (prop, r))
         return 2
     return 0
+
+
+def minimise(mod, prop, v, budget=60):
+    """Greedy line deletion on the witness text: keep a deletion only if
+    replaying the case still yields a violation of the same kind.  The
+    original text stays in the witness; the reduced one is added."""
+    from .shard import Ctx
+    case = v.get("case")
+    if not isinstance(case, dict) or not isinstance(case.get("text"), str) \
+            or not hasattr(mod, "replay"):
+        return
+
+    def still(text):
+        ctx = Ctx(prop, "quick", 0, 0, 1)
+        try:
+            mod.replay(ctx, dict(case, text=text))
+        except Exception:  # noqa
+            return False
+        finally:
+            ctx.cleanup()
+        return any(w["kind"] == v["kind"] for w in ctx.res.violations)
+
+    text = case["text"]
+    if not still(text):
+        v["replay_reproduces"] = False
+        return
+    v["replay_reproduces"] = True
+    lines = text.split("\n")
+    i = 0
+    while i < len(lines) and budget > 0 and len(lines) > 1:
+        cand = lines[:i] + lines[i + 1:]
+        budget -= 1
+        if still("\n".join(cand)):
+            lines = cand
+        else:
+            i += 1
+    reduced = "\n".join(lines)
+    if reduced != text:
+        v["minimised_text"] = reduced
 
 
 def run_worker(prop, tier, seed, shard, nshards, out):
